@@ -63,3 +63,373 @@ def check_percent_rule(ctx, fname, formula, kind_id):
 def _(ctx):
     for i, (fname, formula) in enumerate(PCT_RULES.items()):
         check_percent_rule(ctx, fname, formula, i)
+
+
+@spec("C05", "m_find_percent_rules", "find_numbers_percent ('A is what % of B' = 100A/B, zero divisor -> 0, result a percentage) and find_total_from_percent ('A is p% of what' = 100A/p, money keeps its currency); real relaxation; no panic, no Err under the patterns")
+def _(ctx):
+    # ---- find_numbers_percent
+    ex, fields, toks, args, _, _ = setup_rule("find_numbers_percent", "real")
+    outs, _ = run_fn(ex, "percent_rules::find_numbers_percent", args)
+    ctx.part.functions.append("percent_rules::find_numbers_percent")
+    ctx.paths += len(outs)
+    a, a_money, _ = number_or_money(ex, toks["part"])
+    b, b_money, _ = number_or_money(ex, toks["total"])
+    rp = ("m_replay_find_numbers_percent", [(a_money, "bool"), (a, "f64"), (b_money, "bool"), (b, "f64")])
+    n_ok = 0
+    for o in outs:
+        if o.kind == "panic":
+            ctx.reachable(ex, o.path, "find_numbers_percent can panic: " + o.msg, rp)
+        elif is_err(o):
+            ctx.reachable(ex, o.path, "find_numbers_percent declines although its pattern matched", rp)
+        else:
+            variant, f = ok_payload(o)
+            n_ok += 1
+            if variant != "Percent":
+                ctx.failures.append(("find_numbers_percent returns a %s token" % variant, {}, None))
+                continue
+            ctx.claim(ex, o.path, f[0].t == z3.If(b == 0, 0, 100 * a / b), "find_numbers_percent is not 100*A/B (0 for B = 0)", rp)
+    if not n_ok:
+        ctx.failures.append(("find_numbers_percent has no Ok path", {}, None))
+    # ---- find_total_from_percent
+    ex, fields, toks, args, _, _ = setup_rule("find_total_from_percent", "real")
+    outs, _ = run_fn(ex, "percent_rules::find_total_from_percent", args)
+    ctx.part.functions.append("percent_rules::find_total_from_percent")
+    ctx.paths += len(outs)
+    a, a_money, cur = number_or_money(ex, toks["number_part"])
+    p = fval(toks["percent_part"], "Percent").t
+    rp = ("m_replay_find_total_from_percent", [(a_money, "bool"), (a, "f64"), (p, "f64")])
+    n_ok = 0
+    for o in outs:
+        if o.kind == "panic":
+            ctx.reachable(ex, o.path, "find_total_from_percent can panic: " + o.msg, rp)
+        elif is_err(o):
+            ctx.reachable(ex, o.path, "find_total_from_percent declines although its pattern matched", rp)
+        else:
+            variant, f = ok_payload(o)
+            n_ok += 1
+            ctx.claim(ex, o.path, f[0].t == z3.If(p == 0, 0, 100 * a / p), "find_total_from_percent is not 100*A/p (0 for p = 0)", rp)
+            if variant == "Money":
+                ctx.claim(ex, o.path, z3.And(a_money, f[1].id == cur), "find_total_from_percent: wrong kind/currency", rp)
+            else:
+                ctx.claim(ex, o.path, z3.Not(a_money), "find_total_from_percent: money operand lost its currency", rp)
+    if not n_ok:
+        ctx.failures.append(("find_total_from_percent has no Ok path", {}, None))
+
+
+# ---------------------------------------------------------------------------- DataItem::calculate kernels
+OPS = ["Add", "Div", "Mul", "Sub"]
+
+
+def calc_setup(ex, self_kind, other_kinds):
+    cfgv = SymV(ex, "config", "config::SmartCalcConfig")
+    me = SymV(ex, "self", "payload")
+    other = SymV(ex, "other", "dyn compiler::DataItem")
+    ex.item_kinds = list(other_kinds)
+    ex.assumptions.append(z3.Or([other.tag() == models.ITEM_KINDS.index(k) for k in other_kinds]))
+    return cfgv, ItemV(self_kind, me), other, me
+
+
+def run_calc(ex, self_kind, item, cfgv, other, op, on_left=True):
+    fn = models.item_impl(ex, self_kind, "calculate")
+    args = [RefV(item), RefV(cfgv), z3.BoolVal(on_left), RefV(other), EnumV("OperationType", op, [])]
+    return list(ex.run(fn, args, Path()))
+
+
+def some_item(o):
+    v = o.value
+    if isinstance(v, EnumV) and v.enum == "Option":
+        if v.variant == "Some":
+            it = v.f[0]
+            return it if isinstance(it, ItemV) else None
+        return "None"
+    return None
+
+
+def real_op(op, x, y):
+    return {"Add": x + y, "Sub": x - y, "Mul": x * y, "Div": z3.If(y == 0, 0, x / y)}[op]
+
+
+@spec("C02", "m_number_calculate", "NumberItem::calculate (MIR -> SMT): number (+ - * /) number is the real operation with x/0 -> 0, result a number; never None, never a panic (evaluation step of the precedence property)")
+def _(ctx):
+    for op in OPS:
+        ex = new_exec("real")
+        cfgv, item, other, me = calc_setup(ex, "NumberItem", ["NumberItem"])
+        outs = run_calc(ex, "NumberItem", item, cfgv, other, op)
+        ctx.part.functions.append("compiler::number::calculate")
+        ctx.paths += len(outs)
+        x = me.field(0, "f64").t
+        y = other.payload("NumberItem").field(0, "f64").t
+        rp = ("m_replay_number_calc", [(OPS.index(op), "u8"), (x, "f64"), (y, "f64")])
+        for o in outs:
+            if o.kind == "panic":
+                ctx.reachable(ex, o.path, "NumberItem %s can panic: %s" % (op, o.msg), rp)
+                continue
+            it = some_item(o)
+            if it == "None" or it is None:
+                ctx.reachable(ex, o.path, "NumberItem %s NumberItem is not computed" % op, rp)
+                continue
+            if it.kind != "NumberItem":
+                ctx.failures.append(("NumberItem %s NumberItem yields a %s" % (op, it.kind), {}, None))
+                continue
+            ctx.claim(ex, o.path, it.f[0].t == real_op(op, x, y), "NumberItem %s is not the arithmetic operation (x/0 = 0)" % op, rp)
+
+
+@spec("C05", "m_calculate_percent", "NumberItem / MoneyItem (+,-) PercentItem (MIR -> SMT, real relaxation): X +- p% = X(1 +- p/100), money keeps its currency; never None, never a panic")
+def _(ctx):
+    for kind in ("NumberItem", "MoneyItem"):
+        for op in ("Add", "Sub"):
+            ex = new_exec("real")
+            cfgv, item, other, me = calc_setup(ex, kind, ["PercentItem"])
+            outs = run_calc(ex, kind, item, cfgv, other, op)
+            ctx.part.functions.append("compiler::%s::calculate" % models.ITEM_MODULE[kind])
+            ctx.paths += len(outs)
+            x = me.field(0, "f64").t
+            p = other.payload("PercentItem").field(0, "f64").t
+            rp = ("m_replay_calc_percent", [(kind == "MoneyItem", "bool"), (op == "Add", "bool"), (x, "f64"), (p, "f64")])
+            want = x * (1 + p / 100) if op == "Add" else x * (1 - p / 100)
+            for o in outs:
+                if o.kind == "panic":
+                    ctx.reachable(ex, o.path, "%s %s PercentItem can panic: %s" % (kind, op, o.msg), rp)
+                    continue
+                it = some_item(o)
+                if it == "None" or it is None:
+                    ctx.reachable(ex, o.path, "%s %s PercentItem is not computed" % (kind, op), rp)
+                    continue
+                if it.kind != kind:
+                    ctx.failures.append(("%s %s PercentItem yields a %s" % (kind, op, it.kind), {}, None))
+                    continue
+                ctx.claim(ex, o.path, it.f[0].t == want, "%s %s p%% is not X(1 +- p/100)" % (kind, op), rp)
+                if kind == "MoneyItem":
+                    ctx.claim(ex, o.path, it.f[1].id == me.field(1, "Rc<types::CurrencyInfo>").id, "money %s p%% changes the currency" % op, rp)
+
+
+# ============================================================================ C06
+def rate_of(ex, cfgv, cur_id):
+    """(has, rate term) of config.currency_rate[cur] as the executor models it"""
+    m = models.get_map(ex, cfgv.field(5, "BTreeMap<Rc<types::CurrencyInfo>, f64>"))
+    has, val = m.lookup(CurrencyV(cur_id))
+    return has, val.t
+
+
+@spec("C06", "m_convert_money", "convert_money (MIR -> SMT, real relaxation): amount * rate(B) / rate(A) for symbolic rates, identity when A = B (non-zero rate), result in the target currency; Err exactly when a rate or the target currency is missing; no panic")
+def _(ctx):
+    ex, fields, toks, args, cfgv, _ = setup_rule("convert_money", "real")
+    outs, _ = run_fn(ex, "money_rules::convert_money", args)
+    ctx.part.functions += ["money_rules::convert_money", "tokinizer::tools::get_money", "tokinizer::tools::get_currency"]
+    ctx.paths += len(outs)
+    money = toks["money"]
+    x = fval(money, "Money").t
+    src = money.payload("Money").field(1, "Rc<types::CurrencyInfo>").id
+    n_ok = 0
+    for o in outs:
+        if o.kind == "panic":
+            ctx.reachable(ex, o.path, "convert_money can panic: " + o.msg)
+            continue
+        if is_err(o):
+            continue
+        variant, f = ok_payload(o)
+        n_ok += 1
+        if variant != "Money":
+            ctx.failures.append(("convert_money returns a %s token" % variant, {}, None))
+            continue
+        dst = f[1].id
+        has_s, r_s = rate_of(ex, cfgv, src)
+        has_d, r_d = rate_of(ex, cfgv, dst)
+        rp = ("m_replay_convert_money", [(src == dst, "bool"), (x, "f64"), (r_s, "f64"), (r_d, "f64")])
+        ctx.claim(ex, o.path, z3.And(has_s, has_d), "convert_money succeeds without a rate", rp)
+        ctx.claim(ex, o.path, f[0].t == z3.If(r_s == 0, 0, x / r_s) * r_d, "convert_money is not amount / rate(A) * rate(B)", rp)
+        ctx.claim(ex, o.path, z3.Implies(z3.And(src == dst, r_s != 0), f[0].t == x), "convert_money A -> A is not the identity", rp)
+    if not n_ok:
+        ctx.failures.append(("convert_money has no Ok path", {}, None))
+
+
+@spec("C06", "m_money_calculate", "MoneyItem::calculate (MIR -> SMT, real relaxation): money +- money converts the right operand by rate(L)/rate(R) and stays in the left currency; money * / number scales and keeps the currency; money / money is the plain ratio in one currency; never None for these operands; no panic")
+def _(ctx):
+    for op in OPS:
+        # money (op) money
+        ex = new_exec("real")
+        cfgv, item, other, me = calc_setup(ex, "MoneyItem", ["MoneyItem"])
+        outs = run_calc(ex, "MoneyItem", item, cfgv, other, op)
+        ctx.part.functions += ["compiler::money::calculate", "compiler::money::convert_currency"]
+        ctx.paths += len(outs)
+        x = me.field(0, "f64").t
+        lc = me.field(1, "Rc<types::CurrencyInfo>").id
+        y = other.payload("MoneyItem").field(0, "f64").t
+        rc = other.payload("MoneyItem").field(1, "Rc<types::CurrencyInfo>").id
+        has_l, r_l = rate_of(ex, cfgv, lc)
+        has_r, r_r = rate_of(ex, cfgv, rc)
+        ex.assumptions.append(z3.And(has_l, has_r, r_l > 0, r_r > 0))
+        conv = y / r_r * r_l
+        rp = ("m_replay_money_money", [(OPS.index(op), "u8"), (lc == rc, "bool"), (x, "f64"), (y, "f64"), (r_l, "f64"), (r_r, "f64")])
+        for o in outs:
+            if o.kind == "panic":
+                ctx.reachable(ex, o.path, "MoneyItem %s MoneyItem can panic: %s" % (op, o.msg), rp)
+                continue
+            it = some_item(o)
+            if it == "None" or it is None:
+                ctx.reachable(ex, o.path, "MoneyItem %s MoneyItem is not computed" % op, rp)
+                continue
+            if op == "Div":
+                if it.kind != "NumberItem":
+                    ctx.failures.append(("money / money yields a %s" % it.kind, {}, None))
+                    continue
+                ctx.claim(ex, o.path, it.f[0].t == z3.If(conv == 0, 0, x / conv), "money / money is not the ratio in one currency", rp)
+            else:
+                if it.kind != "MoneyItem":
+                    ctx.failures.append(("money %s money yields a %s" % (op, it.kind), {}, None))
+                    continue
+                ctx.claim(ex, o.path, it.f[1].id == lc, "money %s money is not in the left operand's currency" % op, rp)
+                if op in ("Add", "Sub"):
+                    ctx.claim(ex, o.path, it.f[0].t == real_op(op, x, conv), "money %s money does not convert the right operand by the rate table" % op, rp)
+        # money (op) number
+        ex = new_exec("real")
+        cfgv, item, other, me = calc_setup(ex, "MoneyItem", ["NumberItem"])
+        outs = run_calc(ex, "MoneyItem", item, cfgv, other, op)
+        ctx.paths += len(outs)
+        x = me.field(0, "f64").t
+        lc = me.field(1, "Rc<types::CurrencyInfo>").id
+        y = other.payload("NumberItem").field(0, "f64").t
+        rp = ("m_replay_money_number", [(OPS.index(op), "u8"), (x, "f64"), (y, "f64")])
+        for o in outs:
+            if o.kind == "panic":
+                ctx.reachable(ex, o.path, "MoneyItem %s NumberItem can panic: %s" % (op, o.msg), rp)
+                continue
+            it = some_item(o)
+            if it == "None" or it is None or it.kind != "MoneyItem":
+                ctx.reachable(ex, o.path, "MoneyItem %s NumberItem is not money" % op, rp)
+                continue
+            ctx.claim(ex, o.path, z3.And(it.f[1].id == lc, it.f[0].t == real_op(op, x, y)), "money %s number does not scale the amount / keep the currency" % op, rp)
+
+
+# ============================================================================ C10
+UNIT_LEN = {"Second": 1, "Minute": 60, "Hour": 3600, "Day": 86400, "Week": 604800}
+CT = None
+
+
+def constant_type_of(ex, cfgv, tkv, text_term):
+    """the ConstantType tag the executor associates with constant_pair[language][text]"""
+    raise NotImplementedError
+
+
+def tdiv(a, b):
+    from mirsmt.execmir import Exec
+    return Exec.tdiv(a, z3.IntVal(b))
+
+
+def expected_parse(unit, n):
+    if unit == "Year":
+        return 365 * 86400 * n
+    if unit == "Month":
+        return (tdiv(n, 12) * 365 + (n - tdiv(n, 12) * 12) * 30) * 86400
+    return {"Day": 86400, "Week": 604800, "Hour": 3600, "Minute": 60, "Second": 1}[unit] * n
+
+
+def duration_payload(o):
+    p = ok_payload(o)
+    if p and p[0] == "Duration" and isinstance(p[1][0], DurationV):
+        return p[1][0].secs
+    return None
+
+
+def assume_language_known(ex, fname, cfgv, tkv):
+    """rule functions only run for a language that has a rule table; load_from_json fills config.rule and
+    config.constant_pair from the same `languages` object, so constant_pair[language] exists (checked on
+    config.rs by engine D: d_language_tables)"""
+    from engine_m import proj_index
+    ci, cty = proj_index(fname, r"BTreeMap<alloc::string::String, (alloc::collections::)?BTreeMap<alloc::string::String, constants::ConstantType>>")
+    li, lty = proj_index(fname, r"^alloc::string::String$")
+    m = models.get_map(ex, cfgv.field(ci, cty))
+    lang = tkv.field(li, lty)
+    has, _ = m.lookup(lang)
+    ex.assumptions.append(has)
+
+
+def run_duration_parse(ctx, count_bound, strict, what):
+    ex, fields, toks, args, cfgv, tkv = setup_rule("duration_parse", "real")
+    assume_language_known(ex, "duration_rules::duration_parse", cfgv, tkv)
+    x = fval(toks["duration"], "Number")
+    n = ex.f_to_int(x, 64, True).t
+    if count_bound is not None:
+        ex.assumptions.append(z3.And(n >= -count_bound, n <= count_bound))
+    outs, _ = run_fn(ex, "duration_rules::duration_parse", args)
+    ctx.part.functions += ["duration_rules::duration_parse", "tokinizer::tools::get_number", "tokinizer::tools::get_text"]
+    ctx.paths += len(outs)
+    consts = ex.enums["ConstantType"]
+    # the ConstantType found for the unit word: locate the executor's lookup symbol
+    tags = [t for name, t in ex.inputs.items() if False]
+    rp = None
+    seen_units = set()
+    for o in outs:
+        if o.kind == "panic":
+            ctx.reachable(ex, o.path, "duration_parse can panic: %s" % o.msg, ("m_replay_duration_parse", [(unit_code_of(ex, o.path), "u8"), (x.t, "f64")]))
+            continue
+        if is_err(o):
+            continue
+        secs = duration_payload(o)
+        if secs is None:
+            ctx.failures.append(("duration_parse returns something that is not a duration", {}, None))
+            continue
+        # which unit is this path about? decide per unit with the path condition
+        for unit in ("Year", "Month", "Day", "Week", "Hour", "Minute", "Second"):
+            cond = unit_cond(ex, o.path, ex.discr("ConstantType", unit))
+            if cond is None:
+                continue
+            if not ex.feasible(o.path, cond):
+                continue
+            seen_units.add(unit)
+            ctx.claim(ex, o.path.add(cond), secs == expected_parse(unit, n), "duration_parse: N %s is not N x the unit length (month 30 d, year 365 d, 12 months = 1 year)" % unit,
+                      ("m_replay_duration_parse", [(ex.discr("ConstantType", unit), "u8"), (x.t, "f64")]))
+    if strict and seen_units != {"Year", "Month", "Day", "Week", "Hour", "Minute", "Second"}:
+        ctx.failures.append(("duration_parse: units without an Ok path: %s" % sorted({"Year", "Month", "Day", "Week", "Hour", "Minute", "Second"} - seen_units), {}, None))
+
+
+def const_tag_terms(ex):
+    """all ConstantType tag terms the executor created for constant_pair lookups"""
+    out = []
+    for c in ex.domain:
+        pass
+    return out
+
+
+def unit_cond(ex, path, idx):
+    """condition 'the looked-up ConstantType is variant idx' for the single lookup on this path"""
+    terms = getattr(ex, "_const_terms", None)
+    if terms is None:
+        terms = []
+        for key, (has, val) in _all_map_memo(ex):
+            if isinstance(val, SymV) and val.ty.endswith("ConstantType"):
+                terms.append(val.tag())
+        ex._const_terms = terms
+    if len(terms) != 1:
+        return None
+    return terms[0] == idx
+
+
+def unit_code_of(ex, path):
+    terms = getattr(ex, "_const_terms", None) or []
+    if not terms:
+        unit_cond(ex, path, 0)
+        terms = ex._const_terms
+    return terms[0] if terms else 0
+
+
+def _all_map_memo(ex):
+    seen = []
+
+    def walk(sym):
+        if hasattr(sym, "_map") and isinstance(sym._map, models.MapV):
+            for k, hv in sym._map.memo.items():
+                seen.append((k, hv))
+                if isinstance(hv[1], SymV):
+                    walk(hv[1])
+        for f in getattr(sym, "_fields", {}).values():
+            if isinstance(f, SymV):
+                walk(f)
+    for root in getattr(ex, "_roots", []):
+        walk(root)
+    return seen
+
+
+@spec("C10", "m_duration_parse", "duration_parse (MIR -> SMT, integers exact): for every count |N| <= 10^6 and every unit word bound by the pattern the result is N x unit length (month 30 d, year 365 d, twelve months one year); no panic, no Err")
+def _(ctx):
+    run_duration_parse(ctx, 10 ** 6, True, "strict")
